@@ -149,9 +149,11 @@ PROPS = {
    "tree_events_wf (generic), cbor_parser_wf (every accepted supported stream), expand_array_wf / expand_map_wf (all 29 "
    "adapter expansions). PropsJsonP.C09 json_parser_wf1(_chunks) / json_parser_wf(_chunks) / json_parser_events_ok: every grammatical JSON "
    "text / stream, under every chunking, is delivered as a contract-conforming stream whose strings are well-formed UTF-8 and whose numbers are "
-   "in the range of their event kind. Oracle: WF evaluated on every event stream any parser or Fold delivers.",
-   "Kernel-checked for the generic layer, the CBOR, UBJSON and JSON parsers and the adapters; Fold by mirror + WF oracle.",
-   partial="Fold (gotype) as producer: WF oracle on every fold op (a proof is in progress)"),
+   "in the range of their event kind. Oracle: WF evaluated on every event stream any parser or Fold delivers."
+   " PropsFold.C09 fold_ok_wf / fold_fault_wf_prefix: for every type of the universe goodT (C12) and every value of it, a fold that returns ok has delivered ONE contract-conforming "
+   "document (exact announced lengths incl. the struct rule), and under any fault index a prefix of it; custom folders are user code (counterexample FOpen).",
+   "Kernel-checked for the generic layer, the CBOR, UBJSON and JSON parsers, the adapters and Fold on the universe goodT.",
+   partial="Fold outside goodT (custom folders = user code, inline interface fields, recursive types): WF oracle on every fold op"),
  "C10": P("DESIGN.md 7 C10",
    "Lean 4 proof (native typed methods = expansion, same bytes and state; byte slices same value) + differential correspondence",
    "cbor_ext_same: step s x = execEvs s x.expand for every typed array (except byte slices), typed map and by-reference "
@@ -263,9 +265,11 @@ PROPS = {
    "event is the one that returns the error)."
    " PropsJson.C16 json_encoder_reports_write_errors / json_encoder_success_iff_no_write_failed; PropsJsonP.C16 json_parser_returns_visitor_error / "
    "json_writeChunks_returns_visitor_error (every byte string, chunking, fault index). Pull decoders: op `decf` (failing visitor at every event)."
-   " PropsUbjP.C16 ubj_parser_returns_visitor_error / ubj_writeChunks_returns_visitor_error / ubj_no_visitor_error (unconditional: every byte string, chunking, fault index).",
-   "Kernel-checked for the encoders and the parsers of all three formats; pull decoders, gotype fold/unfold by mirror + correspondence + oracle.",
-   partial="pull decoders, gotype fold/unfold: mirror + exhaustive fault-index correspondence, no theorem yet (Fold: proof in progress)"),
+   " PropsUbjP.C16 ubj_parser_returns_visitor_error / ubj_writeChunks_returns_visitor_error / ubj_no_visitor_error (unconditional: every byte string, chunking, fault index)."
+   " PropsFold.C16 fold_fault_truncates / fold_propagates_visitor_error / fold_ok_means_fault_not_reached: UNCONDITIONAL (every type, value, option record, fault index): the fold on a "
+   "visitor failing at event k IS the healthy fold truncated after event k with the visitor's error.",
+   "Kernel-checked for the encoders and the parsers of all three formats and for gotype Fold; pull decoders and gotype Unfold by mirror + correspondence + oracle.",
+   partial="pull decoders, gotype Unfold: mirror + exhaustive fault-index correspondence, no theorem yet"),
  "C17": P("DESIGN.md 7 C17",
    "Lean 4 proof (documents restore every stack; reuse = fresh by induction on histories) + differential correspondence with depth hooks",
    "cbor_encoder_reuse / cbor_parser_reuse / cbor_parser_idle. Correspondence: ops `reuse-enc` / `reuse-parse` (histories "
@@ -280,13 +284,18 @@ PROPS = {
    "Kernel-checked for encoder and parser of all three formats; pull decoders, fold iterator and unfolder by mirror + correspondence + oracle (unfolder: C14 theorem).",
    partial="pull decoders of UBJSON / JSON, fold iterator: no theorem yet; JSON parser: probes restricted to grammatical texts"),
  "C18": P("DESIGN.md 7 C18",
-   "Lean 4 proof (CBOR decoder, byte-slice and reader-driven: one value per Next then clean EOF for every split into reads; truncation => unexpectedEOF; read-size independence on arbitrary bytes; termination) + differential correspondence over read scripts",
+   "Lean 4 proof (CBOR, JSON and UBJSON decoders, byte-slice and reader-driven: one value per Next then clean EOF for every split into reads; truncation => error; read-size independence on arbitrary bytes; termination) + differential correspondence over read scripts",
    "reader_decoder_stream / reader_decoder_truncated(_one) / reader_chunking_independent / reader_eq_bytes_decoder / "
    "reader_never_outOfFuel / enough_nextFuel; bytes_decoder_stream / next_one / eof_not_clean. Correspondence: op `dec` (k documents, buffer sizes "
    "{bytes,1,2,3,7,16,64,4096}, read sizes varying per call, (0,nil) reads, data with io.EOF, truncated streams); oracle: "
-   "ok x k then eof with exactly one value per Next; truncated => error.",
-   "Kernel-checked in full for the CBOR decoder (byte-slice and reader-driven); UBJSON and JSON decoders by mirror + correspondence + oracle.",
-   partial="UBJSON and JSON decoders: no theorem yet"),
+   "ok x k then eof with exactly one value per Next; truncated => error."
+   " PropsJsonD.C18 (no side condition beyond grammatical documents): json_bytes_decoder_stream / json_reader_decoder_stream(_num_end) / json_reader_decoder_truncated / "
+   "json_reader_never_outOfFuel / json_reader_chunking_independent / json_reader_eq_bytes_decoder. PropsUbjD.C18: ubj_bytes_decoder_stream / ubj_reader_decoder_stream / "
+   "ubj_reader_decoder_truncated / ubj_next_never_panics / ubj_nexts_loop_fuel_irrelevant / ubj_reader_chunking_independent / ubj_reader_eq_bytes_decoder, the reader-driven ones "
+   "under a cost bound per item that stems from the MODEL's per-buffer parser fuel (shown necessary for the mirror; the Go loop has no fuel).",
+   "Kernel-checked in full for the CBOR and JSON decoders (byte-slice and reader-driven: one value per Next then EOF for every read script, truncation => error, read-size independence on arbitrary bytes, termination); "
+   "UBJSON decoder: the same, the reader-driven theorems up to the model's fuel.",
+   partial="UBJSON reader-driven decoder on items costing more than 2*10^6 parser iterations (payload-free typed containers with ~10^6 elements): outside the theorem because of the mirror's fuel; correspondence there"),
  "C19": dict(P("DESIGN.md 7 C19",
    "Lean 4 proof (non-interference of state-owning instances under every interleaving) tied to regenerated SSA facts about package-level state",
    "interleaving_independent: for any number of instances whose steps read only their own state and an immutable "
